@@ -138,8 +138,8 @@ Definition set_dbo (s : sstate) (v : bool) : sstate :=
 (* what the upper layer (IServerSessionObserver / IServerObserver / IPubSessionObserver) is told *)
 Inductive event :=
 | EvConnect (npairs : N) (app : bytes)
-| EvNewPub (app sname rawq url : bytes) (accepted : bool)
-| EvNewSub (app sname rawq url : bytes) (accepted : bool)
+| EvNewPub (seen : role) (app sname rawq url : bytes) (accepted : bool)   (* seen = BaseType the observer finds on the session *)
+| EvNewSub (seen : role) (app sname rawq url : bytes) (accepted : bool)
 | EvAv (m : rmsg)
 | EvDelPub
 | EvDelSub.
@@ -429,7 +429,7 @@ Definition do_publish (b : bytes) : M unit :=
   _ <- mput (set_role st RPub) ;;
   _ <- mod_conn_props ;;
   st <- mget ;;
-  _ <- memit (EvNewPub (ss_app st) (ss_sname st) (ss_rawq st) (ss_url st) (e_accept env)) ;;
+  _ <- memit (EvNewPub (ss_role st) (ss_app st) (ss_sname st) (ss_rawq st) (ss_url st) (e_accept env)) ;;
   if e_accept env then
     (if e_install env then mput (set_av st true) else mret tt)
   else
@@ -445,7 +445,7 @@ Definition do_play (b : bytes) : M unit :=
   _ <- mput (set_role st RSub) ;;
   _ <- mod_conn_props ;;
   st <- mget ;;
-  _ <- memit (EvNewSub (ss_app st) (ss_sname st) (ss_rawq st) (ss_url st) (e_accept env)) ;;
+  _ <- memit (EvNewSub (ss_role st) (ss_app st) (ss_sname st) (ss_rawq st) (ss_url st) (e_accept env)) ;;
   if e_accept env then mret tt
   else _ <- mput (set_dbo st true) ;; mfail e_observer.
 
@@ -605,10 +605,10 @@ Inductive astate := A0 | APub | ASub | ARej | ADone.
 Definition astep (s : astate) (e : event) : option astate :=
   match s, e with
   | A0, EvConnect _ _ => Some A0
-  | A0, EvNewPub _ _ _ _ true => Some APub
-  | A0, EvNewPub _ _ _ _ false => Some ARej
-  | A0, EvNewSub _ _ _ _ true => Some ASub
-  | A0, EvNewSub _ _ _ _ false => Some ARej
+  | A0, EvNewPub _ _ _ _ _ true => Some APub
+  | A0, EvNewPub _ _ _ _ _ false => Some ARej
+  | A0, EvNewSub _ _ _ _ _ true => Some ASub
+  | A0, EvNewSub _ _ _ _ _ false => Some ARej
   | APub, EvConnect _ _ => Some APub
   | APub, EvAv _ => Some APub
   | APub, EvDelPub => Some ADone
